@@ -1397,16 +1397,25 @@ struct Interp {
     std::string s = v.is_bottom() ? "B" : (v.is_top() ? "T" : "N");
     if (v.is_bottom())
       return s;
-    for (auto &n : cx.ints) {
-      crab::crab_string_os os;
-      os << v.at(cx.v(n));
-      s += " " + n + "=" + os.str();
+    // a query that crab refuses (CRAB_ERROR) is recorded as such, not propagated
+    try {
+      for (auto &n : cx.ints) {
+        crab::crab_string_os os;
+        os << v.at(cx.v(n));
+        s += " " + n + "=" + os.str();
+      }
+    } catch (const FatalError &) {
+      s += " at:refused";
     }
     std::vector<std::string> cs;
-    for (auto const &c : v.to_lin()) {
-      crab::crab_string_os os;
-      os << c;
-      cs.push_back(os.str());
+    try {
+      for (auto const &c : v.to_lin()) {
+        crab::crab_string_os os;
+        os << c;
+        cs.push_back(os.str());
+      }
+    } catch (const FatalError &) {
+      cs.push_back("export:refused");
     }
     std::sort(cs.begin(), cs.end());
     for (auto &c : cs)
